@@ -147,6 +147,9 @@ func (d *c11DFS) explore(n *c11Node, depth int) {
 					if idx >= 1 && idx <= uint64(len(n.log)) && alt == 0 && l2 == n.log[idx-1].l2 {
 						root = n.log[idx-1].root // byte-identical re-submission of what is stored there
 					}
+					if idx == next && len(n.log) > 0 && l2 == last && alt == 1 {
+						root = n.log[len(n.log)-1].root // the predecessor's block number AND its root, offered as the next output
+					}
 					c := d.fork(n, "")
 					res := c.l1.Deliver(ophosttypes.NewMsgProposeOutput(who.String(), 1, idx, l2, root[:]))
 					run.Evaluations++
